@@ -102,7 +102,7 @@ func (c *c06) newTerm(n string) (*proto.EntryId, error) {
 			time.Sleep(50 * time.Millisecond)
 			continue
 		}
-		if attempt == 0 && strings.Contains(err.Error(), "lock held by current process") {
+		if attempt < 3 && strings.Contains(err.Error(), "lock held by current process") {
 			c.r.Count("diag_follower_wedged_after_snapshot", 1)
 			c.crashNode(n, false)
 			if !c.start(n) {
